@@ -259,18 +259,10 @@ func encodeJsonLines(ctx context.Context, fp io.Writer, view *View, options opti
 	e := txjson.NewEncoder()
 	e.EscapeType = options.JsonEscape
 	e.LineBreak = options.LineBreak
-	e.PrettyPrint = options.PrettyPrint
+	// A record of JSON Lines is a single line, so pretty printing (and the
+	// colouring that comes with it) does not apply to this format.
+	e.PrettyPrint = false
 	e.FloatFormat = jsonFloatFormat(options.ScientificNotation)
-	if options.PrettyPrint && options.Color {
-		e.Palette = palette
-	}
-	defer func() {
-		if options.Color {
-			palette.Enable()
-		} else {
-			palette.Disable()
-		}
-	}()
 
 	lineBreak := e.LineBreak.Value()
 	w := bufio.NewWriter(fp)
